@@ -14,6 +14,8 @@ mod rng;
 use std::io::{BufRead, Write};
 use std::panic::{catch_unwind, AssertUnwindSafe};
 
+pub static LAST_PANIC_LOC: std::sync::Mutex<String> = std::sync::Mutex::new(String::new());
+
 pub struct Out {
     pub w: Box<dyn Write>,
     pub stats: std::collections::BTreeMap<String, u64>,
@@ -72,14 +74,25 @@ pub fn exec_line(sess: &mut Session, line: &str, out: &mut Out) -> Vec<String> {
             out.count("impl_panics");
             let msg = msg.replace('\n', " ");
             out.line("< panic");
-            out.line(&format!("#panic-message {}", msg));
+            let loc = std::mem::take(&mut *LAST_PANIC_LOC.lock().unwrap());
+            out.line(&format!("#panic-message {} [at {}]", msg, loc));
             vec!["panic".to_string()]
         }
     }
 }
 
 fn main() {
-    if std::env::var("AMH_VERBOSE").is_err() { std::panic::set_hook(Box::new(|_| {})); }
+    if std::env::var("AMH_VERBOSE").is_err() {
+        // silent hook that remembers where the panic happened (reported in `#panic-message`)
+        std::panic::set_hook(Box::new(|info| {
+            let loc = info.location().map(|l| {
+                let f = l.file();
+                let f = f.rsplit_once("/rust/").map(|x| x.1).unwrap_or(f);
+                format!("{}:{}", f, l.line())
+            }).unwrap_or_default();
+            *LAST_PANIC_LOC.lock().unwrap() = loc;
+        }));
+    }
     let args: Vec<String> = std::env::args().collect();
     let stdout = std::io::stdout();
     let mut out = Out {
